@@ -213,6 +213,7 @@ def C18(tier, seed):
         jobs.append({"name": f"life_{s_}", "args": ["life", "--seed", str(seed * 100 + s_), "--paths", "@life_paths@", "--sample", str(sample)]})
     jobs += hist_jobs("hist_spl_", seed, 2 if tier == "quick" else 8, 4 if tier == "quick" else 40, 150, "spl", ["--rewards", "1"])
     jobs += matrix_jobs("matrix_", tier, seed, "0", "0", 0, 0, shards_q=1, shards_t=1)
+    jobs.append({"name": "bundle_sweep", "args": ["life", "--seed", str(seed * 100 + 77), "--sweep", "48" if tier == "quick" else "256"]})
     return {"active": ["C18"], "drivers": jobs, "gen": gen,
             "models": [{"name": "LifecycleModel", "module": "LifecycleModel", "cfg": "LifecycleModel_mc.cfg", "timeout": 1200}],
             "must_exercise": {"lock_position": 5, "transfer_locked_position": 3, "reset_position_range": 5, "close_position": 5, "open_bundled_position": 3, "close_bundled_position": 3,
